@@ -29,8 +29,8 @@ RULE_TEXT = 'one obligation per configuration x (anchor, trailer, top alternativ
 ASSUMPTIONS = ['pyparsing 3.3 combinator semantics as modelled in sa/grammar.py (copy vs in-place, results names, ErrorStop)',
                'decides necessary structural conditions; does not decide that every malformed document is rejected',
                'changes of `+` into `-` (ErrorStop) and back are not judged']
-ENGINES = ['pyindex', 'grammar', 'paths']
-TECHNIQUE = 'static analysis (ast): abstract evaluation of the grammar definitions into an IR; FIRST-set, length-set, vocabulary, pairing and enclosure rules on the IR; path rules on the parse entry'
+ENGINES = ['pyindex', 'grammar', 'paths', 'effects']
+TECHNIQUE = 'static analysis (ast): abstract evaluation of the grammar definitions into an IR; FIRST-set, length-set, vocabulary, pairing and enclosure rules on the IR; path rules on the parse entry; per-call-state obligations (no shared containers, no memoisation, per-parser grammar copies)'
 
 INDEX_TYPES = {'brin', 'btree', 'gin', 'gist', 'hash', 'spgist'}
 REF_ACTIONS = {'no action', 'restrict', 'cascade', 'set null', 'set default'}
